@@ -20,8 +20,8 @@ from vt.oracles import jsonstrict
 
 ID = 'C09'
 TIERS = {
-    'quick': dict(shards=16, cases=200, watchdog_s=900),
-    'thorough': dict(shards=16, cases=10000, watchdog_s=7000),
+    'quick': dict(shards=16, cases=800, watchdog_s=900),
+    'thorough': dict(shards=16, cases=20000, watchdog_s=7000),
 }
 RULE = ('case = frame + constraint set (source: discover_df with/without rex, or hand-written boundary-derived set '
         'with precision dicts, date bounds at date/second/microsecond granularity, unicode names and values, '
@@ -127,7 +127,13 @@ def run_case(ctx, case):
         rec.violation('raises', {'case': case, 'mech': {'stage': stage, 'exc': m['exc'], 'where': m['where']},
                                  'facts': dict(m, source=case['source'])})
         return
-    nkinds = sum(len(v) for v in json.loads(text0, parse_constant=lambda c: c).get('fields', {}).values()) if not jsonstrict.problems(text0) or True else 0
+    try:
+        nkinds = sum(len(v) for v in json.loads(text0).get('fields', {}).values())
+    except ValueError as e:
+        rec.case(case, cls=cls)
+        contracts.drain()
+        rec.violation('text_is_not_json', {'case': case, 'mech': {'source': case['source']}, 'facts': {'error': str(e)[:200], 'text': text0[-400:]}})
+        return
     rec.case(case, nontrivial=nkinds >= 3, cls=cls)
     facts0 = classify_text(text0)
     # ---- strictness (contract + harness) ------------------------------------
